@@ -12,8 +12,9 @@ from common import hexb
 
 warnings.filterwarnings("ignore")
 
-DTYPES = {"i4": "Int32", "i2": "Int16", "u2": "UInt16", "u4": "UInt32", "f4": "Float32", "f8": "Float64", "U": "String"}
-NUMERIC = [k for k in DTYPES if k != "U"]
+DTYPES = {"i4": "Int32", "i2": "Int16", "u2": "UInt16", "u4": "UInt32", "f4": "Float32", "f8": "Float64", "U": "String",
+          "u1": "Byte"}
+NUMERIC = [k for k in DTYPES if k != "U"]     # "u1" (Byte) included: packed on the wire, padded to 4n
 STR_ALPHABET = "abcxyz019 _.-"     # no comma / quote / newline: the harness's ASCII reader splits sequence rows on ", "
 
 
@@ -38,21 +39,35 @@ def val_sexp(v):
 def gen_values(rng, dt, n):
     if dt == "U":
         return [gen_string(rng) for _ in range(n)]
+    if dt == "u1":
+        return [rng.choice([0, 1, 127, 128, 200, 255, rng.randint(0, 255), rng.randint(128, 255), rng.randint(0, 9)]) for _ in range(n)]
     lo, hi = (0, 9999) if dt[0] == "u" else (-9999, 9999)
     return [rng.choice([0, 1, lo, hi, rng.randint(lo, hi), rng.randint(-9, 9) if lo < 0 else rng.randint(0, 9)])
             for _ in range(n)]
 
 
 def gen_dtype(rng, strings=True):
-    return "U" if strings and rng.random() < 0.2 else rng.choice(NUMERIC)
+    r = rng.random()
+    if r < 0.2:
+        return "u1"
+    return "U" if strings and r < 0.4 else rng.choice(NUMERIC)
 
 
-def gen_base(rng, name, max_rank=3, rank=None, dims=None, strings=True):
-    dt = gen_dtype(rng, strings)
+# element counts 0..8 (multiples of four and the others) for Byte arrays: the XDR padding depends on count % 4
+BYTE_SHAPES = [[0], [1], [2], [3], [4], [4], [5], [6], [7], [8], [8], [2, 2], [2, 4], [4, 2], [1, 4], [2, 3], [3, 3], [2, 2, 2], [2, 0],
+               [1, 2, 2], [12]]
+
+
+def gen_base(rng, name, max_rank=3, rank=None, dims=None, strings=True, dt=None):
+    dt = dt or gen_dtype(rng, strings)
     if rank is None:
         rank = rng.choice([0, 1, 1, 2, 2, 3][: 2 + 2 * max_rank]) if max_rank else 0
         rank = min(rank, max_rank)
-    shape = [rng.randint(1, 4) if rank > 1 else rng.randint(1, 7) for _ in range(rank)]
+    shape = [rng.randint(1, 4) if rank > 1 else rng.randint(1, 8) for _ in range(rank)]
+    if dt == "u1" and rank and rng.random() < 0.7:
+        shape = rng.choice([s_ for s_ in BYTE_SHAPES if len(s_) == rank])
+    elif rank and rng.random() < 0.04:
+        shape[rng.randrange(rank)] = 0          # an empty array
     n = int(np.prod(shape)) if shape else 1
     if dims is None and rank and rng.random() < 0.5:
         dims = ["d%s%d" % (name, i) for i in range(rank)]
@@ -92,6 +107,11 @@ def gen_dataset(rng, with_seq=True, ambiguous=False, strings=True, nested=True):
                 for _ in range(rng.choice([1, 2, 3, 5, 8]))]
         vars_.append({"k": "sq", "name": "s", "cols": cols, "rows": rows})
     rng.shuffle(vars_)
+    if rng.random() < 0.4:
+        # a Byte array directly followed by another variable: what comes after the padding is read at the right offset
+        at = rng.randint(0, len(vars_))
+        vars_[at:at] = [gen_base(rng, "u", rank=rng.choice([1, 1, 1, 2]), dt="u1"),
+                        gen_base(rng, "w", max_rank=1, strings=False, dt=rng.choice(["i4", "i2", "f8", "u1"]))]
     return {"name": rng.choice(["d", "d", "data", "a1"]), "vars": vars_}
 
 
@@ -180,8 +200,8 @@ def gen_hs(rng, shape):
     text, sl = "", []
     axes = shape if rng.random() < 0.85 else shape[: rng.randint(1, len(shape))]
     for n in axes:
-        a = rng.randint(0, n - 1)
-        b = rng.randint(a, n - 1) if rng.random() < 0.85 else rng.choice([n, n + 1, 99])
+        a = rng.randint(0, n - 1) if n else 0          # an axis of length 0: only index 0 names it (the whole, empty, axis)
+        b = rng.randint(a, n - 1) if n and rng.random() < 0.85 else rng.choice([n, n + 1, 99])
         k = rng.choice([1, 1, 2, 3])
         form = rng.randint(0, 2)
         if form == 0:
@@ -549,7 +569,7 @@ def run_request(app, path, query):
     """webob Request.blank(path?query).get_response(app); exception / status / headers / body read to the end"""
     from webob import Request
 
-    out = {"exc": None, "status": None, "ctype": None, "cdesc": None, "body": None, "body_exc": None, "sent": True}
+    out = {"exc": None, "status": None, "ctype": None, "cdesc": None, "body": None, "body_exc": None, "sent": True, "clen": None}
     try:
         req = Request.blank(path + ("?" + query if query is not None else ""))
     except Exception as e:  # the harness could not even build the request
@@ -568,6 +588,7 @@ def run_request(app, path, query):
     out["status"] = res.status_int
     out["ctype"] = res.content_type
     out["cdesc"] = res.headers.get("Content-description")
+    out["clen"] = res.headers.get("Content-Length")      # as announced by the response object (before webob fills it in)
     try:
         out["body"] = res.body
     except Exception as e:
@@ -634,7 +655,7 @@ def parse_dds(text):
     return name, entries, "\n".join(lines[pos[0]:])
 
 
-XDR_FMT = {"Int16": (">i", 4), "UInt16": (">I", 4), "Int32": (">i", 4), "UInt32": (">I", 4), "Float32": (">f", 4),
+XDR_FMT = {"Byte": (">B", 1), "Int16": (">i", 4), "UInt16": (">I", 4), "Int32": (">i", 4), "UInt32": (">I", 4), "Float32": (">f", 4),
            "Float64": (">d", 8)}
 
 
@@ -663,9 +684,19 @@ def decode_dods_values(decl, payload):
             pos += 4 + padded
             return v
         fmt, n = XDR_FMT[ty]
+        if pos + n > len(payload):
+            raise ValueError("%s value runs past the end of the data response" % ty)
         (v,) = struct.unpack_from(fmt, payload, pos)
         pos += n
         return v
+
+    def zero_pad(n, what):
+        """`n` bytes were just read as packed Bytes: skip the zero padding up to a multiple of four"""
+        nonlocal pos
+        k = -n % 4
+        if payload[pos:pos + k] != b"\0" * k:
+            raise ValueError("%s: the %d padding byte(s) after %d Byte value(s) are %r" % (what, k, n, payload[pos:pos + k]))
+        pos += k
 
     def rd_base(ty, shape):
         nonlocal pos
@@ -679,6 +710,8 @@ def decode_dods_values(decl, payload):
                 raise ValueError("array length words %r differ from the declared %d" % (ns, n))
         for _ in range(n):
             vals.append(read(ty))
+        if ty == "Byte":        # packed: one byte per value, zeros up to 4n after the last (a scalar: 1 + 3)
+            zero_pad(n, "Byte %s" % ("array" if shape else "scalar"))
 
     def rd_members(ms):
         for m in ms:
@@ -702,6 +735,8 @@ def decode_dods_values(decl, payload):
                     raise ValueError("bad sequence marker %r" % marker)
                 for (_, ty, _s) in e[2]:
                     vals.append(read(ty))
+                    if ty == "Byte":
+                        zero_pad(1, "Byte column")
     if pos != len(payload):
         raise ValueError("%d trailing bytes in the data response" % (len(payload) - pos))
     return vals
